@@ -63,7 +63,7 @@ class Own(Flow):
             if all(self.kind(x, st) == 'own' for x in e.elts):
                 return 'ownlist'
             return None
-        if isinstance(e, ast.ListComp):
+        if isinstance(e, (ast.ListComp, ast.GeneratorExp)):
             inner = dict(st)
             for g in e.generators:
                 k = self.kind(g.iter, inner)
